@@ -68,8 +68,19 @@ def run(tape, scenario, want_c10=False):
     possible = online + [0, 0, 1, online, 124][tape.draw("cfg/possible-cpus", 5)] \
         if scenario == "percpu" else online
     monitor = BufferMonitor()
+    # the possible-CPU list as the kernel prints it (%*pbl): ranges and lone CPUs
+    shape = tape.draw("cfg/cpulist-shape", 4) if possible >= 3 else 0
+    if shape == 1:
+        cpulist = f"0,2-{possible}"                     # lone first CPU, hole at 1
+    elif shape == 2:
+        cpulist = f"0-{possible - 2},{possible + 3}"    # lone last CPU
+    elif shape == 3:
+        k = possible // 2
+        cpulist = f"0-{k - 1},{k + 4}-{possible + 3}"   # two ranges
+    else:
+        cpulist = f"0-{possible - 1}"
     env = Env(tape, with_kernel=True, possible_cpus=possible, online_cpus=online,
-              monitor=monitor)
+              monitor=monitor, cpulist=cpulist)
     world, kernel = env.world, env.kernel
     violations = []
 
@@ -300,6 +311,7 @@ def run(tape, scenario, want_c10=False):
         "sim_time": 0.0, "schedule": log.hexdigest(),
         "nontrivial": len(decls) >= 3 and any(h[0] == "run" for h in history),
         "sample": {"scenario": scenario, "possible_cpus": possible, "online": online,
+                   "cpulist": cpulist,
                    "declarations": [(h, n, f, k) for h, n, f, k in decls],
                    "overridden": overridden, "statements": [
                        (k, d[:3], (s[:3] if k == "copy" else s)) for k, d, s in stmts],
